@@ -604,6 +604,18 @@ example : (CGroup.port false [55, 48, 48, 48, 48]).badValue { ipOk := fun _ => t
 example : clientConfig { ipOk := fun _ => true, pathExists := fun _ => true }
     ((CGroup.file [120]).tokens ++ [[45, 98]]) = .err := by decide
 
+/-! ### the flag spellings of the model are those of the source -/
+
+/-- **tie to the source**: the flag tables the model's parsers test membership in are, arm by arm and in
+source order, the string patterns of the `match arg.as_str()` arms of `Config::new` (`Gen.serverFlagTable`
+is regenerated from `src/config.rs` on every run) -/
+theorem c17_server_flags_match_source :
+    [fI, fP, fD, fRD, fSD, fS, fR, fH, fDup, fOw, fKeep] = Gen.serverFlagTable := by decide
+
+/-- the same for `ClientConfig::new` and `src/client_config.rs` -/
+theorem c17_client_flags_match_source :
+    [fI, fP, fB, fW, fT, fRD, fU, fDl, fKeep, fH] = Gen.clientFlagTable := by decide
+
 /-- client defaults: 127.0.0.1 (`ip = none`), port 69, blksize 512, windowsize 1, timeout 5 s, download,
 clean-on-error -/
 theorem c17_client_defaults (o : Oracles) :
